@@ -494,7 +494,14 @@ fn to_source_span(src: &NamedSource<String>, location: &Location) -> Option<Sour
     let text = src.inner();
     if text.is_char_boundary(byte_off) {
         let line_start = text[..byte_off].rfind('\n').map(|i| i + 1).unwrap_or(0);
-        let end = (byte_off + byte_len).min(text.len());
+        // (what counts is the line the label starts on: a span that runs over many lines - a long
+        // block scalar - is not far to the right)
+        let span_end = (byte_off + byte_len).min(text.len());
+        let end = text
+            .get(byte_off..span_end)
+            .and_then(|covered| covered.find('\n'))
+            .map(|i| byte_off + i)
+            .unwrap_or(span_end);
         let columns: usize = text
             .get(line_start..end)
             .unwrap_or("")
